@@ -352,10 +352,15 @@ class LoopSpec:
 
 
 # ----------------------------------------------------------------------------- interpreter
+CURRENT_INTERP: list = []
+
+
 class Interp:
     def __init__(self, world: World):
+        CURRENT_INTERP[:] = [self]
         self.world = world
         self.depth = 0
+        self.stack = []
 
     # ---- function invocation
     def invoke(self, clo: Closure, args, kwargs):
@@ -377,6 +382,7 @@ class Interp:
         env.vars.update(ba.arguments)
         node = c.node
         self.depth += 1
+        self.stack.append(qn)
         if self.depth > 200:
             raise Undecided("call depth > 200")
         try:
@@ -389,6 +395,7 @@ class Interp:
             return None
         finally:
             self.depth -= 1
+            self.stack.pop()
 
     def call(self, f, args, kwargs):
         return f(*args, **kwargs)
